@@ -257,3 +257,12 @@ reg("C35", "enum", "For every well-formed design of the small DSL families (flat
     "and the reference call/conflict relations; analyze_transactions counts and encode/decode round trip are checked.",
     "bounded-exhaustive design enumeration, each design simulated over every input valuation with the real profiler process",
     note="Trusts Amaranth's simulator and the reference relations of vlib/dsl.py; designs bounded to the listed families.")
+
+reg("C28", "tsx", "Every pipeline shape of a bounded grammar (source, 0-2 (3 thorough) middle nodes from {function stage overwriting / adding "
+    "a field, called external method, extra source with and without no_dependency}, sink; every link a Pipe or FIFO of depth 1-2; "
+    "optional stage ready inputs; external clear) built with the real PipelineBuilder and explored completely against a monitor with "
+    "one queue of in-flight items per link: nodes fire only on the oldest waiting item, each item passes every node once and in order, "
+    "the sink returns the composed fields, no link overruns, clear empties all links and calls the external clear.",
+    "bounded-exhaustive enumeration of pipeline shapes + explicit-state BFS of each elaborated pipeline against a queue monitor",
+    note=E1_NOTE + " Node firing is observed through adapter pins, comb witnesses inside stage functions and the run of the "
+    "no_dependency decoupling pipe (reached through a recording subclass of PipelineBuilder); 1-bit fields.")
